@@ -803,8 +803,45 @@ def r04_17(ctx):
                     "(parser 2 raises where parser 1 accepts)", f.loc(c))
 
 
+def r04_18(ctx):
+    """R04.18 (a) a relative `rsource` / `orsource` is resolved against the file it stands in, in both parsers: parser 2 keeps that file on
+    its own stack (`self.file_stack[-1]`) - `Kconfig.filename`, which parser 1 updates while it descends, always names the top-level
+    file under parser 2; (b) the hand-written option-block scanner of parser 2 accounts for a line's length only once: every update of
+    its position counter in the line loop runs after the `already consumed by the help block` test failed (a blank line inside a help
+    text is part of the help block; counting it again moves the end of the block into the next entry, which parser 2 then rejects)."""
+    repo = ctx.repo
+    f = repo.func(f"{P2}:Parser.parse_sourced")
+    ctx.analysed(f.qual)
+    from .common import expand_locals
+    joins = [n for n in ast.walk(f.node) if isinstance(n, ast.Call) and ast.unparse(n.func) in ("join", "os.path.join") and n.args
+             and "dirname(" in expand_locals(f.node, n.args[0])]
+    if not joins:
+        raise AnchorError("Parser.parse_sourced: no join(dirname(..), path) for relative sources")
+    for j in joins:
+        base = expand_locals(f.node, j.args[0])
+        construct = "Parser.parse_sourced/a relative source is resolved against the file being parsed"
+        (ctx.ok(construct, f.loc(j)) if "self.file_stack[-1]" in base else
+         ctx.bad(construct, f"the base directory is `{base}`: under parser 2 that is not the file the `rsource` line stands in (parser 1 resolves it against "
+                 "that file), so the two parsers include different files or one of them fails", f.loc(j)))
+    g = repo.func("esp_kconfiglib.kconfig_grammar:KconfigOptionBlock.parseImpl")
+    ctx.analysed(g.qual)
+    loops = [n for n in ast.walk(g.node) if isinstance(n, ast.For) and "enumerate(lines" in ast.unparse(n.iter)]
+    if not loops:
+        raise AnchorError("KconfigOptionBlock.parseImpl: line loop not found")
+    fl = Flow(g.node, resolver=Resolver(g.node)).run()
+    bumps = [n for n in ast.walk(loops[0]) if isinstance(n, ast.AugAssign) and ast.unparse(n.target) == "current_loc" and repo.enclosing_func(n) is g]
+    if not bumps:
+        raise AnchorError("KconfigOptionBlock.parseImpl: no position accounting in the line loop")
+    for i, b in enumerate(bumps):
+        construct = f"KconfigOptionBlock.parseImpl/position update #{i + 1} only for lines the help block did not consume"
+        gs = fl.guards_at(b) or set()
+        ok = any("help_text_indices" in k and " in " in k and not p for k, p in gs)
+        (ctx.ok(construct, g.loc(b)) if ok else
+         ctx.bad(construct, f"`{ast.unparse(b)}` runs under {sorted(gs)}, i.e. also for a line the help block has already counted: the block's end position overshoots", g.loc(b)))
+
+
 def rules():
-    return [("R04.17", r04_17, 2), ("R04.16", r04_16, 12), ("R04.15", r04_15, 1), ("R04.14", r04_14, 3), ("R04.13", r04_13, 1), ("R04.12", r04_12, 5), ("R04.11", r04_11, 3), ("R04.10", r04_10, 4), ("R04.1", r04_1, 20), ("R04.2", r04_2, 25), ("R04.3", r04_3, 14), ("R04.4", r04_4, 8), ("R04.5", r04_5, 5),
+    return [("R04.18", r04_18, 3), ("R04.17", r04_17, 2), ("R04.16", r04_16, 12), ("R04.15", r04_15, 1), ("R04.14", r04_14, 3), ("R04.13", r04_13, 1), ("R04.12", r04_12, 5), ("R04.11", r04_11, 3), ("R04.10", r04_10, 4), ("R04.1", r04_1, 20), ("R04.2", r04_2, 25), ("R04.3", r04_3, 14), ("R04.4", r04_4, 8), ("R04.5", r04_5, 5),
             ("R04.6", r04_6, 3), ("R04.7", r04_7, 3), ("R04.8", r04_8, 4), ("R04.8b", r04_8b, 5), ("R04.9", r04_9, 2)]
 
 
